@@ -1,10 +1,10 @@
-\* graph (thorough): three files, three option sets, two versions
+\* graph (thorough): three files, three option sets
 CONSTANTS K = 2
           Editable = {"M","L1"}
           Addable = {"A"}
           OptNames = {"O1","O2","O4"}
           Modes = {"cache"}
-          Versions = {1,2}
+          Versions = {1}
           Holds = {FALSE}
           MaxClock = 1000000
           LibFoldersInKey = FALSE
